@@ -1,5 +1,6 @@
 import RedactVerif.Model.Writer
 import RedactVerif.Proofs.BufferInv
+import RedactVerif.Props.L2
 /-
 C01 — every produced string is a well-formed redactable string
 (and C03's "no envelope spans a line break": `WFL` = well-formed + line-safe).
@@ -77,18 +78,6 @@ def WOpOk : WOp → Prop
   | .print r => Obtainable r
   | _ => True
 
-theorem setMode_mode (b : Buffer) (m : Mode) : (b.setMode m).mode = m := by
-  by_cases h : b.mode = m
-  · rw [setMode_same b m h]; exact h
-  · unfold Buffer.setMode; simp [h]
-
-theorem inv_write_nr (b : Buffer) (p : List Byte) (hi : Inv b) (hm : b.mode ≠ .raw) : Inv (b.write p) :=
-  inv_write b p hi (fun h => absurd h hm)
-theorem inv_writeByte_nr (b : Buffer) (x : Byte) (hi : Inv b) (hm : b.mode ≠ .raw) : Inv (b.writeByte x) :=
-  inv_writeByte b x hi (fun h => absurd h hm)
-theorem inv_writeRune_nr (b : Buffer) (r : Int) (hi : Inv b) (hm : b.mode ≠ .raw) : Inv (b.writeRune r) :=
-  inv_writeRune b r hi (fun h => absurd h hm)
-
 theorem inv_builderOps (b : Buffer) (w : WOp) (hi : Inv b) (hok : WOpOk w) : Inv (b.run (builderOps w)) := by
   have i1 : ∀ m, Inv (b.setMode m) := fun m => inv_setMode b m hi
   have nr : ∀ m, m ≠ Mode.raw → (b.setMode m).mode ≠ .raw := fun m h => by rw [setMode_mode]; exact h
@@ -123,26 +112,6 @@ theorem builder_wf (ws : List WOp) (hok : ∀ w ∈ ws, WOpOk w) :
   obtainable_finalize _ (inv_builderRun _ ws inv_init hok)
 
 /-! ### The printer's SafeWriter adapter (printer_adapter.go) -/
-
-theorem write_mode (b : Buffer) (p : List Byte) : (b.write p).mode = b.mode := by
-  unfold Buffer.write Buffer.append Buffer.startWrite
-  split
-  · simp only [Buffer.startRedactable]; split <;> rfl
-  · rfl
-
-theorem writeRune_mode (b : Buffer) (r : Int) : (b.writeRune r).mode = b.mode := write_mode b _
-
-theorem writeByte_mode (b : Buffer) (x : Byte) : (b.writeByte x).mode = b.mode := by
-  have hs : b.startWrite.mode = b.mode := by
-    unfold Buffer.startWrite
-    split
-    · simp only [Buffer.startRedactable]; split <;> rfl
-    · rfl
-  unfold Buffer.writeByte
-  simp only
-  split
-  · rw [write_mode, hs]
-  · simp [Buffer.append, hs]
 
 /-- A bracketed write `start…; f; restore`: `q` is the buffer after the `start…` switch. -/
 theorem inv_bracket (b q : Buffer) (f : Buffer → Buffer)
@@ -263,6 +232,39 @@ theorem escapeBytes_wf (s : List Byte) : Obtainable (escapeBytes s) := by
   · rw [tokenize_append_endB, goodT_snoc_e]; exact hgood
   · rw [tokenize_append_endB, scan_append, hsc]; simp [scanFrom]
 
+
+/-! ### The printer (L2): every entry point of the model -/
+
+/-- **C01/C03, printer level.** For every oracle (`render` = whatever strconv/fmt
+produce for basic values), every error hook, every format string (arbitrary
+bytes), every argument list of the modelled universe — leaves of all basic
+kinds, Safe/Unsafe wrappers at any nesting, RedactableString/Bytes, values
+with String/Error/GoString/Format/SafeFormat/SafeMessage methods whose bodies
+are arbitrary scripts of SafePrinter calls (including nested Print/Printf and
+panics with arbitrary payloads), slices, maps, structs, pointers, registered
+and SafeValue types — `Sprintf` either lets a panic propagate or returns a
+well-formed, line-safe, obtainable redactable. The only hypothesis is that
+embedded RedactableString/Bytes are themselves obtainable (`ListOk`). -/
+theorem sprintf_wf (env : Env) (he : EnvOk env) (f : List Byte) (args : List Val) (ha : ListOk args)
+    (q : PP) (h : sprintf env f args = .ok q) : Obtainable q.buf.redactableBytes :=
+  (doPrintf_out env he _ newPP pre_newPP f args ha q h).1
+
+theorem sprint_wf (env : Env) (he : EnvOk env) (args : List Val) (ha : ListOk args)
+    (q : PP) (h : sprint env args = .ok q) : Obtainable q.buf.redactableBytes :=
+  (doPrint_out env he _ newPP pre_newPP args ha q h).1
+
+theorem helperForErrorf_wf (env : Env) (he : EnvOk env) (f : List Byte) (args : List Val) (ha : ListOk args)
+    (q : PP) (h : helperForErrorf env f args = .ok q) : Obtainable q.buf.redactableBytes :=
+  (doPrintf_out env he _ _ (pre_entry _ rfl) f args ha q h).1
+
+/-- Nested printers inside a StringBuilder / Sprintfn callback: a script run on
+a printer in any reachable state keeps the buffer invariant. -/
+theorem script_wf (env : Env) (he : EnvOk env) (n : Nat) (p : PP) (hp : Pre p) (sc : Script) (hsc : ScriptOk sc)
+    (q : PP) (h : runScript env n p sc = .ok q) : Obtainable q.buf.redactableBytes ∧ q.buf.mode = p.buf.mode := by
+  have := (spec_all env he n).runScript p sc hp hsc
+  rw [h] at this
+  exact ⟨obtainable_finalize _ this.1, this.2.1⟩
+
 /-! ### Non-vacuity: the hypotheses are met by non-trivial runs -/
 
 example : RunOk Buffer.init [.setMode .safeEsc, .write [0xE2, 0x80], .setMode .unsafeEsc, .write [0x80, 0xB9, 0x0A, 0x41],
@@ -273,5 +275,13 @@ example : RunOk Buffer.init [.setMode .safeEsc, .write [0xE2, 0x80], .setMode .u
 example : (Buffer.init.run [.setMode .safeEsc, .write [0xE2, 0x80], .setMode .unsafeEsc, .write [0x80, 0xB9, 0x0A, 0x41]]).redactableBytes
     = [0xE2, 0x80, 0x3F] ++ startB ++ [0x80, 0xB9] ++ endB ++ [0x0A] ++ startB ++ [0x41] ++ endB := by
   decide
+
+/-- Non-vacuity at L2: a format with a bad verb, an Unsafe(Safe(..)) wrapper and a redactable operand. -/
+example : ListOk [.unsafeW (.safeW (.leaf 0 .str "string".toUTF8.toList none false false)), .redactable (startB ++ [0x78] ++ endB) "markers.RedactableString".toUTF8.toList] := by
+  intro v hv
+  simp only [List.mem_cons, List.mem_nil_iff, or_false] at hv
+  rcases hv with rfl | rfl
+  · simp [ValOk]
+  · simp only [ValOk]; decide
 
 end Redact
